@@ -15,6 +15,7 @@ import core
 import sched
 
 SEMA = "runtime/internal/lib/runtime/sema_llgo.go"
+AVALUE = "runtime/internal/lib/sync/atomic/value.go"
 IMPORTS = [("github.com/goplus/llgo/runtime/internal/clite/pthread/sync", 'psync "schedharness/psync"'),
            ("github.com/goplus/llgo/runtime/internal/lib/sync/atomic", 'latomic "schedharness/latomic"')]
 
@@ -28,8 +29,10 @@ def prepare(chk, name):
     s = re.sub(r"^//go:(linkname|build).*\n", "", s, flags=re.M)  # directives only; no code line is touched
     open(dst, "w").write(s)
     sched.instantiate_gosync(d)
+    # llgo's own atomic.Value: package clause rewritten, nothing else (its pointer atomics resolve to yielding stand-ins)
+    sched.rewrite_imports(os.path.join(core.REPO, AVALUE), os.path.join(d, "aval", "value.go"), "aval", [])
     bins = {}
-    for cmd in ("semarun", "syncrun"):
+    for cmd in ("semarun", "syncrun", "avalrun"):
         out = os.path.join(chk.work.dir, "%s-%s.bin" % (name, cmd))
         rc, log = sched.go_build(chk.work, d, "./cmd/" + cmd, out)
         if rc != 0:
@@ -46,7 +49,7 @@ def replay(path):
         sys.exit(2)
     f = os.path.join(path, "failure.json") if os.path.isdir(path) else path
     kind = json.load(open(f)).get("kind")
-    binary = bins["semarun"] if kind in ("sema", "notify") else bins["syncrun"]
+    binary = bins["semarun"] if kind in ("sema", "notify") else (bins["avalrun"] if kind == "aval" else bins["syncrun"])
     r = core.sh([binary, "-replay", f], timeout=300)
     print(r[1] + r[2])
     chk.work.close()
@@ -62,7 +65,8 @@ def main():
                       "sema_llgo.go (or Go's sync sources on top of it) no longer compiles against the scheduler stand-ins:\n" + log[-1500:])
         chk.cov["evaluations"] = 1
         chk.finish(floor_eval=1, floor_distinct=0)
-    plan = [("semarun", 6000000 if thorough else 160000), ("syncrun", 4000000 if thorough else 120000)]
+    plan = [("semarun", 6000000 if thorough else 160000), ("syncrun", 4000000 if thorough else 120000),
+            ("avalrun", 2000000 if thorough else 64000)]
     total_runs = 0
     distinct = 0
     classes = {}
@@ -107,7 +111,8 @@ def main():
     chk.cov["yield_sites_total"] = len(sites)
     chk.cov["rule"] = ("semarun: 2-5 threads x 1-4 acquire/release ops on 1-2 semaphores (initial 0-2; 1/3 of runs use a count-1 semaphore as a lock), and 1-4 waiters x 1-2 rounds + "
                        "1-2 notifier threads on a notify list (NotifyOne / NotifyAll / mixed, 1/4 of runs start at ticket 0xfffffffe); syncrun: Go's Mutex/RWMutex/WaitGroup/Once/Cond sources "
-                       "on top of the copied semaphores; seeded scheduler (uniform / PCT / round-robin, arbitrary-waiter Signal, spurious wake-ups in 1/3 of runs), atomics and lock operations "
+                       "on top of the copied semaphores; avalrun: llgo's atomic.Value (value.go) with 1-2 writers (Store/Swap/CompareAndSwap(nil,x), pointer and boxed values) and 1-3 readers, "
+                       "every pointer atomic a scheduling point, Load must return nil or exactly a value whose store had started; seeded scheduler (uniform / PCT / round-robin, arbitrary-waiter Signal, spurious wake-ups in 1/3 of runs), atomics and lock operations "
                        "are scheduling points. Monitors: semaphore conservation at every step, final count, mutual exclusion, lost wake-up at quiescence, Wait(t) returns only when notify>t, "
                        "notify<=wait, notified waiter asleep at quiescence, occupancy counters for Mutex/RWMutex, admission at quiescence, WaitGroup/Once/Cond laws. "
                        "distinct = distinct (scenario, decision list, log) hashes summed over 16 processes")
